@@ -56,5 +56,13 @@ for it in done:
     print('%-44s expect=%-4s %-18s detected_by=%s %s' % (it['id'], exp, status, ','.join(det), it['note']))
     if status in ('MISSED', 'FALSE-ALARM'):
         miss.append(it['id'])
-json.dump([{k: v for k, v in it.items() if k != 'patch'} for it in done], open(os.path.join(V, 'corpus_results.json'), 'w'), indent=1)
+res = [{k: v for k, v in it.items() if k != 'patch'} for it in done]
+outp = os.path.join(V, 'corpus_results.json')
+if only and os.path.exists(outp):
+    # partial run: merge into the existing results
+    old = {i['id']: i for i in json.load(open(outp))}
+    for i in res:
+        old[i['id']] = i
+    res = [old[k] for k in sorted(old)]
+json.dump(res, open(outp, 'w'), indent=1)
 print('items=%d problems=%s' % (len(done), miss))
